@@ -1,6 +1,8 @@
 """C15 read paths: files that CONTAIN the legacy property (binary PROP chunk / XML element), with
 and without the new property, in both chunk / element orders, built without rbx-dom."""
 import json, os, random, sys
+import sys as _sys
+_sys.setrecursionlimit(20000)  # trees of the size scenarios are hundreds of levels deep
 from xml.sax.saxutils import escape
 
 sys.path.insert(0, os.path.dirname(os.path.dirname(os.path.abspath(__file__))))
